@@ -18,18 +18,42 @@ Inductive ty :=
 | TDc (c: nat)               (* dataclass number c of the class table *)
 | TList (t: ty)              (* List / Tuple[T,...] / Dict[str,T] values: a comprehension over the items, in order *)
 | TOpt (t: ty)               (* Optional[T]:  <packer> if value is not None else None *)
-| TUnion (cs: list nat).     (* Union of dataclasses *)
+| TUnion (cs: list nat)      (* Union of dataclasses *)
+| TDisc (p: nat) (withfield supertypes: bool).
+    (* Annotated[P, Discriminator(field="kind" | None, include_subtypes=True, include_supertypes=...)]:
+       packed like P; unpacked by the variant dispatcher of the holder *)
 
 Record field := { f_name : nat; f_ty : ty; f_default : bool }.
 
 (* Hook flags are the *declared* hooks in the sense of builder.get_declared_hook (found in the
    MRO on a class other than DataClassDictMixin); c_ctx = ADD_SERIALIZATION_CONTEXT enabled. *)
+(* c_parent: the dataclass this one derives from (fields and hooks of the parent are already flattened
+   into c_fields / the hook flags).  c_tag: the class body binds the discriminator attribute itself
+   (variant.__dict__["kind"]).  c_disc: the class's own Config has a discriminator with include_subtypes;
+   Some true = with field (dispatch on the tag), Some false = without field (try every subclass). *)
 Record cinfo := { c_fields : list field;
                   c_pre : bool; c_post : bool; c_prede : bool; c_postde : bool;
-                  c_ctx : bool }.
+                  c_ctx : bool;
+                  c_parent : option nat; c_tag : option nat; c_disc : option bool }.
 Definition env := list cinfo.
-Definition empty_class : cinfo := Build_cinfo [] false false false false false.
+Definition mk_cinfo fl pre post prede postde ctx : cinfo := Build_cinfo fl pre post prede postde ctx None None None.
+Definition empty_class : cinfo := mk_cinfo [] false false false false false.
 Definition cls (E: env) (c: nat) : cinfo := nth c E empty_class.
+
+(* iter_all_subclasses(p): cls.__subclasses__() in definition order, depth first, pre-order *)
+Definition opt_nat_eqb (a: option nat) (b: nat) : bool := match a with Some x => x =? b | None => false end.
+Definition children (E: env) (p: nat) : list nat :=
+  filter (fun c => opt_nat_eqb (c_parent (cls E c)) p) (seq 0 (length E)).
+Fixpoint subclasses_f (E: env) (fuel: nat) (p: nat) : list nat :=
+  match fuel with
+  | 0 => []
+  | S f => flat_map (fun c => c :: subclasses_f E f c) (children E p)
+  end.
+Definition subclasses (E: env) (p: nat) : list nat := subclasses_f E (length E) p.
+Definition is_sub (E: env) (cr c: nat) : bool := existsb (Nat.eqb cr) (subclasses E c).
+(* registry[tag]: every variant registers variant.__dict__[field]; later variants overwrite earlier ones *)
+Definition lookup_tag (E: env) (vs: list nat) (t: nat) : option nat :=
+  fold_left (fun acc v => if opt_nat_eqb (c_tag (cls E v)) t then Some v else acc) vs None.
 
 (* ---------------------------------------------------------------- values *)
 (* VInst c i j fs: an instance of class c with identity i whose __pre_serialize__ (if the
@@ -167,6 +191,7 @@ Section Pack.
       match t with
       | TInt => ok_ []
       | TDc c => call_dc c pc k
+      | TDisc p _ _ => call_dc p pc k       (* the annotation plays no role for packing *)
       | TList t' => match v with
                     | VList l => seqM (map (fun x => pack m x t' pc k) l)
                     | _ => fail_ end
@@ -223,17 +248,23 @@ Section Wt.
   (* v is a value of type t: every instance has exactly the declared class (for a union: one
      of the members), its attributes are the class's fields in order, and when the class has
      no pre hook the "returned" identity is the instance itself. *)
+  (* allow = true: an instance of a subclass may stand where the parent is declared, provided both agree on the
+     context option (the keyword list of the call is computed from the declared class) *)
+  Variable allow : bool.
+  Definition class_ok (cr c: nat) : bool :=
+    (cr =? c) || (allow && is_sub E cr c && Bool.eqb (c_ctx (cls E cr)) (c_ctx (cls E c))).
   Fixpoint wt (v: val) {struct v} : ty -> bool :=
     let inst_ok (c: nat) : bool :=
       match v with
       | VInst cr i j fs =>
-          (cr =? c) && nodupb (map fst fs) && (c_pre (cls E cr) || (i =? j))
+          class_ok cr c && nodupb (map fst fs) && (c_pre (cls E cr) || (i =? j))
           && all_fields (map (fun kx => match kx with (k, x) => (k, wt x) end) fs) (c_fields (cls E cr))
       | _ => false end in
     fix on_ty (t: ty) : bool :=
       match t with
       | TInt => match v with VInt => true | _ => false end
       | TDc c => inst_ok c
+      | TDisc p _ _ => inst_ok p
       | TList t' => match v with VList l => forallb (fun x => wt x t') l | _ => false end
       | TOpt t' => match v with VNone => true | _ => on_ty t' end
       | TUnion cs => match v with
@@ -243,13 +274,16 @@ Section Wt.
 End Wt.
 
 (* unions *)
+(* no speculative construct: no Union, no discriminator without a field *)
 Fixpoint union_free (t: ty) : bool :=
   match t with
   | TInt | TDc _ => true
   | TList t' | TOpt t' => union_free t'
-  | TUnion _ => false end.
+  | TUnion _ => false
+  | TDisc _ wf _ => wf end.
+Definition disc_det (C: cinfo) : bool := match c_disc C with Some false => false | _ => true end.
 Definition env_union_free (E: env) : bool :=
-  forallb (fun C => forallb (fun f => union_free (f_ty f)) (c_fields C)) E.
+  forallb (fun C => forallb (fun f => union_free (f_ty f)) (c_fields C) && disc_det C) E.
 
 (* mixin path: all members of every union agree on the context option *)
 Fixpoint all_same (l: list bool) : bool :=
@@ -260,7 +294,7 @@ Section Uni.
   Variable E : env.
   Fixpoint union_uniform (t: ty) : bool :=
     match t with
-    | TInt | TDc _ => true
+    | TInt | TDc _ | TDisc _ _ _ => true
     | TList t' | TOpt t' => union_uniform t'
     | TUnion cs => all_same (map (fun c => c_ctx (cls E c)) cs) end.
   Definition env_union_uniform : bool :=
@@ -275,7 +309,8 @@ Definition erase (e: ev) : ev :=
 Inductive wire :=
 | WInt
 | WNone
-| WDict (kvs: list (nat * wire))   (* a dataclass in basic form: keys are field names *)
+| WDict (tag: option nat) (kvs: list (nat * wire))
+    (* a dataclass in basic form: keys are field names; tag = the value under the discriminator key, if present *)
 | WList (l: list wire).            (* list / tuple / Dict[str,T] items in order *)
 
 (* state = next fresh instance identity; result = (decoded value or failure, events, next id) *)
@@ -343,16 +378,42 @@ Section Unpack.
     | (None, tr, n1) => (None, pre ++ tr, n1)
     end.
 
+  (* the variant dispatcher (unpack.py DiscriminatedUnionUnpackerBuilder) over the variants vs, each given as
+     "variant.from_dict(value)".  With a field: value[field] (missing key: MissingDiscriminatorError; not a mapping:
+     TypeError), then the registered class; without: try every variant in order, `except Exception: pass`. *)
+  Definition dispatch (tag: option (option nat)) (withfield: bool) (vs: list nat) (from_dict: nat -> D) : D :=
+    if withfield then
+      match tag with
+      | Some (Some t) => match lookup_tag E vs t with
+                         | Some v => from_dict v
+                         | None => dfail end       (* SuitableVariantNotFoundError *)
+      | _ => dfail
+      end
+    else dtry (map from_dict vs).
+
+  Definition disc_variants (p: nat) (supertypes: bool) : list nat :=
+    subclasses E p ++ (if supertypes then [p] else []).
+
   Fixpoint unpack (w: wire) {struct w} : dsub :=
-    let call_dc (c: nat) : D :=
+    let tag : option (option nat) := match w with WDict t _ => Some t | _ => None end in
+    (* the ordinary from_dict body of class c (hooks of c, fields, constructor) *)
+    let plain (c: nat) : D :=
       match w with
-      | WDict kvs => dbody c (map (fun kx => match kx with (k, x) => (k, unpack x) end) kvs)
+      | WDict _ kvs => dbody c (map (fun kx => match kx with (k, x) => (k, unpack x) end) kvs)
       | _ => fun n => (None, if c_prede (cls E c) then [PreDe c] else [], n)   (* hook, then d.get fails *)
+      end in
+    (* c.from_dict(value): a class whose own Config has a discriminator is only a dispatcher - its own hooks are
+       not emitted, the chosen variant's from_dict runs the variant's (possibly inherited) hooks *)
+    let call_dc (c: nat) : D :=
+      match c_disc (cls E c) with
+      | Some wf => dispatch tag wf (subclasses E c) plain
+      | None => plain c
       end in
     fix on_ty (t: ty) : D :=
       match t with
       | TInt => match w with WInt => dret VInt | _ => dfail end
       | TDc c => call_dc c
+      | TDisc p wf sup => dispatch tag wf (disc_variants p sup) plain
       | TList t' => match w with
                     | WList l => fun n => match dseq (map (fun x => unpack x t') l) n with
                                           | (Some vs, tr, n1) => (Some (VList vs), tr, n1)
